@@ -295,9 +295,11 @@ def stepC04 (st : St) (ws : List String) : St × Resp :=
     let sr : SReg := { num := num.toNat!, maxHash := Scaled.maxHashForScaled scaled.toNat!, ksize := ksize.toNat!,
                        seed := seed.toNat!, mol := mol, track := tr, src := [] }
     ({ st with regs := setR st.regs r sk, sregs := setR st.sregs r sr }, { model := "ok" })
-  | ["build", r, ctor, maxHash, num, ksize, mol, seed, track, items] =>
+  | "build" :: r :: ctor :: maxHash :: num :: ksize :: mol :: seed :: track :: items :: _cm =>
     -- a sketch handed over ready-made (builder / JSON document): the state is what was given; a JSON
-    -- document is sorted by (hash, abundance) on the way in and loses `num` next to a ceiling
+    -- document is sorted by (hash, abundance) on the way in and loses `num` next to a ceiling.  `_cm`:
+    -- an explicit (possibly stale) `current_max` for the tree builder - only given to sketches with a
+    -- ceiling, where the code never reads the field, so it is no part of the modelled state here
     let r := r.toNat!
     let tr := track == "1"
     let ps := if ctor == "js" then sortPairs (parsePairs items) else parsePairs items
